@@ -445,6 +445,43 @@ func ReadAll(col any, rt *refproto.Type, rows int) ([]any, error) {
 	return out, nil
 }
 
+// AppendArr adds the values through the column's AppendArr method; it reports
+// false when the column has none the bridge can call.
+func AppendArr(col any, rt *refproto.Type, vals []any) (ok bool, err error) {
+	if rt.Kind == refproto.KMap || rt.Kind == refproto.KTuple {
+		return false, nil
+	}
+	switch c := col.(type) {
+	case *proto.ColDate, *proto.ColDate32, *proto.ColDateTime, *proto.ColDateTime64, *proto.ColInterval, proto.ColTuple:
+		return false, nil
+	case *proto.ColEnum:
+		names := make([]string, len(vals))
+		for i, v := range vals {
+			found := false
+			for _, d := range rt.Enum {
+				if d.Val == v.(int64) {
+					names[i], found = d.Name, true
+				}
+			}
+			if !found {
+				return false, fmt.Errorf("gen: %d is not a value of %s", v, rt.Name)
+			}
+		}
+		c.AppendArr(names)
+		return true, nil
+	}
+	m := reflect.ValueOf(col).MethodByName("AppendArr")
+	if !m.IsValid() || m.Type().NumIn() != 1 || m.Type().In(0).Kind() != reflect.Slice {
+		return false, nil
+	}
+	a, err := toRV(m.Type().In(0), vals)
+	if err != nil {
+		return false, nil
+	}
+	m.Call([]reflect.Value{a})
+	return true, nil
+}
+
 // Fill appends all values.
 func Fill(col any, rt *refproto.Type, vals []any) error {
 	for _, v := range vals {
